@@ -180,6 +180,7 @@ func runC08(r *Report, tier string) {
 	// slots themselves (an attached empty payload stays attached)
 	r.rule("R09.1", "(shared with C09) every structure decoder stores the same-named wire slots unchanged.")
 	checkDecoderSlots(r, "R09.1")
+	checkUnprotectedEncoderTagFree(r, "R08.6")
 	// what the unprotected encoder can emit under labels 7 / 11 (one
 	// countersignature or a list of any length) is not refused by head byte
 	if cs := P.countersigValueDecoder(); cs != nil {
@@ -240,7 +241,9 @@ func mutC08() []mutant {
 		{Name: "Signature encoder uses the library default encoder", File: "sign.go", Quick: true, Rule: "R08.2",
 			Old: "\t\tSignature:   s.Signature,\n\t}\n\treturn encMode.Marshal(sig)", New: "\t\tSignature:   s.Signature,\n\t}\n\treturn cbor.Marshal(sig)"},
 		{Name: "unprotected encoder assembles its output pair by pair", File: "headers.go", Rule: "R08.4",
-			Old: "\tif err := validateHeaderParameters(h, false); err != nil {\n\t\treturn nil, fmt.Errorf(\"unprotected header: %w\", err)\n\t}\n\treturn encMode.Marshal(map[any]any(h))", New: "\tif err := validateHeaderParameters(h, false); err != nil {\n\t\treturn nil, fmt.Errorf(\"unprotected header: %w\", err)\n\t}\n\tif len(h) > 40 {\n\t\tout := []byte{0xb8, byte(len(h))}\n\t\tfor k, v := range h {\n\t\t\tkb, _ := encMode.Marshal(k)\n\t\t\tvb, _ := encMode.Marshal(v)\n\t\t\tout = append(append(out, kb...), vb...)\n\t\t}\n\t\treturn out, nil\n\t}\n\treturn encMode.Marshal(map[any]any(h))"},
+			Old: "\tif err := validateHeaderParameters(h, false); err != nil {\n\t\treturn nil, fmt.Errorf(\"unprotected header: %w\", err)\n\t}\n\tencoded, err := encMode.Marshal(map[any]any(h))", New: "\tif err := validateHeaderParameters(h, false); err != nil {\n\t\treturn nil, fmt.Errorf(\"unprotected header: %w\", err)\n\t}\n\tif len(h) > 40 {\n\t\tout := []byte{0xb8, byte(len(h))}\n\t\tfor k, v := range h {\n\t\t\tkb, _ := encMode.Marshal(k)\n\t\t\tvb, _ := encMode.Marshal(v)\n\t\t\tout = append(append(out, kb...), vb...)\n\t\t}\n\t\treturn out, nil\n\t}\n\tencoded, err := encMode.Marshal(map[any]any(h))"},
+		{Name: "D6 re-created: the unprotected encoder emits tagged values unchecked", File: "headers.go", Quick: true, Rule: "R08.6", Key: "tag-free",
+			Old: "\tif err := decModeWithTagsForbidden.Wellformed(encoded); err != nil {\n\t\treturn nil, fmt.Errorf(\"unprotected header: %w\", err)\n\t}\n\treturn encoded, nil", New: "\treturn encoded, nil"},
 		{Name: "protected encoder drops the validator", File: "headers.go", Rule: "R08.5",
 			Old: "\t\terr := validateHeaderParameters(h, true)\n\t\tif err != nil {\n\t\t\treturn nil, fmt.Errorf(\"protected header: %w\", err)\n\t\t}\n\t\tencoded, err = encMode.Marshal(map[any]any(h))", New: "\t\tvar err error\n\t\tencoded, err = encMode.Marshal(map[any]any(h))"},
 		{Name: "empty unprotected header emitted as an indefinite-length map", File: "headers.go", Rule: "R08.2",
